@@ -51,3 +51,54 @@ target("breezy/config.py::_iter_for_location_by_parts", params=dict(sections=Seq
                       hints=inner_hints)},
        ensures={"exactly_the_matching_sections_in_order_with_their_unmatched_tail": lambda c: c.g.yielded == Sel(c.old.sections)},
        raises={"Exception": True}, canary=lambda c: Len(c.g.yielded) == 0)
+
+# ---- LocationMatcher.get_sections: the most specific matching section comes first (more components first; ties broken by section id)
+SEC = Opaque("LocationSection")
+attr_sort("LocationSection.id", STR)
+MATCH = Tup(INT, SEC)
+Matching = ufunc("Matching", Seq(MATCH))       # what _get_matching_sections returns: (number of components, section) for every matching section
+IgnoreParents = ufunc("IgnoreParents", SEC, Opt(STR))
+BoolFrom = ufunc("BoolFrom", STR, Opt(BOOL))
+cls("LocationMatcher", fields={"store": ANY, "location": STR})
+assumed("self._get_matching_sections", pure=True, returns=lambda c: Matching(), raises={"Exception": None})
+assumed("section.get", pure=True, returns=lambda c: IgnoreParents(c.section), raises={"Exception": None})
+assumed("ui.bool_from_string", pure=True, returns=lambda c: BoolFrom(c.args[0].val), raises={"Exception": None})
+def ignoring(sec):
+    """the section sets ignore_parents to a true value: less specific sections are not consulted"""
+    v = IgnoreParents(sec)
+    return And(Not(v.is_none), Not(BoolFrom(v.val).is_none), BoolFrom(v.val).val)
+
+
+YOUT = Seq(Tup(ANY, SEC))
+StoreOf = ufunc("StoreOf", ANY)
+YMap = fold_cat("YMap", Seq(MATCH), YOUT, lambda e: lift([Tup(ANY, SEC).mk(StoreOf(), e[1])], YOUT))
+NoIgnore = fold_all("NoIgnore", Seq(MATCH), lambda e: Not(ignoring(e[1])))
+M0 = ufunc("m0", MATCH)                        # an arbitrary matching section
+J0 = ufunc("j0", INT)
+
+
+def seq_member_hint(c):
+    """membership witness: if the arbitrary section M0 is in the ordered list it sits at some position J0 (skolem constant of the fold)"""
+    if not c.has("sections"):
+        return TRUE
+    s_ = c.sections
+    return Implies(Not(NoneIsM0(s_)), And(0 <= J0(), J0() < Len(s_), s_[J0()] == M0()))
+
+
+NoneIsM0 = fold_all("NoneIsM0", Seq(MATCH), lambda e: e != M0())
+target("breezy/config.py::LocationMatcher.get_sections", generator=Tup(ANY, SEC), locals=dict(sections=Seq(MATCH)),
+       requires=lambda c: c.self.store == StoreOf(),
+       loops={1: loop(r"for _, section in sections", index="k", prefix="seen",
+                      inv=lambda c: And(Len(c.g.yielded) == c.k, c.g.yielded == YMap(c.seen), NoIgnore(c.seen),
+                                        Implies(c.k > 0, c.g.yielded[0][1] == c.sections[0][1])))},
+       ensures={"most_specific_matching_section_first": lambda c: Implies(
+           And(Len(c.g.yielded) > 0, Not(NoneIsM0(c.sections))),
+           # no matching section is more specific than the first one yielded: fewer components, or as many and a smaller-or-equal id
+           Or(M0()[0] < c.sections[0][0],
+              And(M0()[0] == c.sections[0][0], Or(attr(M0()[1], "id") == attr(c.sections[0][1], "id"), attr(M0()[1], "id") < attr(c.sections[0][1], "id"))))),
+                "stops_at_the_first_section_that_ignores_its_parents": lambda c: And(
+                    c.g.yielded == YMap(c.sections[0:Len(c.g.yielded)]), NoIgnore(c.sections[0:Len(c.g.yielded)]),
+                    Or(Len(c.g.yielded) == Len(c.sections), ignoring(c.sections[Len(c.g.yielded)][1]))),
+                "first_yielded_is_the_head_of_the_ordered_list": lambda c: Implies(Len(c.g.yielded) > 0, c.g.yielded[0][1] == c.sections[0][1])},
+       hints=lambda c: seq_member_hint(c),
+       raises={"Exception": True}, canary=lambda c: Len(c.g.yielded) == 0)
